@@ -154,6 +154,50 @@ pub struct Plan {
     /// from some point on)
     #[serde(default)]
     pub lazy: Option<LazyPlan>,
+    /// answers of a caller-written remapper laid over the mapping-based one (the `BRemapper` handed to `remap` is a
+    /// trait the caller may implement): members of classes the mappings do not mention get new names
+    #[serde(default)]
+    pub overlay: Vec<Ov>,
+}
+
+#[derive(Clone, Serialize, Deserialize, Debug)]
+pub struct Ov {
+    pub field: bool,
+    pub owner: String,
+    pub name: String,
+    pub desc: String,
+    pub to: String,
+}
+
+/// The caller-written remapper: exact (owner, name, descriptor) answers first, everything else from `inner`.
+pub struct Overlay<'a, R> {
+    pub inner: R,
+    pub ov: &'a [Ov],
+}
+impl<R: quill::remapper::ARemapper> quill::remapper::ARemapper for Overlay<'_, R> {
+    fn map_class_fail(&self, class: &duke::tree::class::ObjClassNameSlice) -> anyhow::Result<Option<duke::tree::class::ObjClassName>> {
+        self.inner.map_class_fail(class)
+    }
+}
+impl<R: quill::remapper::BRemapper> quill::remapper::BRemapper for Overlay<'_, R> {
+    fn map_field_fail(&self, owner: &duke::tree::class::ObjClassNameSlice, name: &duke::tree::field::FieldNameSlice, desc: &duke::tree::field::FieldDescriptorSlice) -> anyhow::Result<Option<duke::tree::field::FieldNameAndDesc>> {
+        use quill::remapper::ARemapper;
+        for o in self.ov {
+            if o.field && owner.as_inner().as_bytes() == o.owner.as_bytes() && name.as_inner().as_bytes() == o.name.as_bytes() && desc.as_inner().as_bytes() == o.desc.as_bytes() {
+                return Ok(Some(duke::tree::field::FieldNameAndDesc { name: java_string::JavaString::from(o.to.clone()).try_into()?, desc: self.inner.map_field_desc(desc)? }));
+            }
+        }
+        self.inner.map_field_fail(owner, name, desc)
+    }
+    fn map_method_fail(&self, owner: &duke::tree::class::ObjClassNameSlice, name: &duke::tree::method::MethodNameSlice, desc: &duke::tree::method::MethodDescriptorSlice) -> anyhow::Result<Option<duke::tree::method::MethodNameAndDesc>> {
+        use quill::remapper::ARemapper;
+        for o in self.ov {
+            if !o.field && owner.as_inner().as_bytes() == o.owner.as_bytes() && name.as_inner().as_bytes() == o.name.as_bytes() && desc.as_inner().as_bytes() == o.desc.as_bytes() {
+                return Ok(Some(duke::tree::method::MethodNameAndDesc { name: java_string::JavaString::from(o.to.clone()).try_into()?, desc: self.inner.map_method_desc(desc)? }));
+            }
+        }
+        self.inner.map_method_fail(owner, name, desc)
+    }
 }
 
 fn to_entries(p: &Plan) -> Vec<(String, EntryData)> {
@@ -190,7 +234,7 @@ fn is_class(name: &str) -> bool {
 /// `by_entry_name`: the output name of a class entry is derived from its ENTRY name (used only when the medium
 /// was damaged and entry name and class name may disagree); otherwise from the class's own name, as the
 /// property states.
-fn reference(hier: &[(String, EntryData)], entries: &[(String, EntryData)], map: &MapSet, by_entry_name: bool) -> Reference {
+fn reference(hier: &[(String, EntryData)], entries: &[(String, EntryData)], map: &MapSet, overlay: &[Ov], by_entry_name: bool) -> Reference {
     let mut supers: BTreeMap<JStr, Vec<JStr>> = BTreeMap::new();
     for (n, d) in hier {
         if let (true, EntryData::File(b)) = (is_class(n), d) {
@@ -200,6 +244,9 @@ fn reference(hier: &[(String, EntryData)], entries: &[(String, EntryData)], map:
         }
     }
     let mut rho = Rho::new(map, supers);
+    for o in overlay {
+        rho.overlay.insert((o.field, JStr::from_str(&o.owner), JStr::from_str(&o.name), JStr::from_str(&o.desc)), JStr::from_str(&o.to));
+    }
     rho.skip = *PERTURB.get_or_init(|| std::env::var("VERIF_C07_PERTURB").ok().and_then(|v| Pos::ALL.iter().copied().find(|p| p.probe() == v)));
     let mut expected = vec![];
     let mut unparseable = 0;
@@ -397,7 +444,7 @@ struct RealRun {
     fuel_exhausted: bool,
 }
 
-fn run_real(jar_bytes: &[u8], hier_bytes: Option<&[u8]>, io: &IoPlan, map: &MapSet, order: u64, st: &mut RunStats) -> RealRun {
+fn run_real(jar_bytes: &[u8], hier_bytes: Option<&[u8]>, io: &IoPlan, map: &MapSet, overlay: &[Ov], order: u64, st: &mut RunStats) -> RealRun {
     let q: quill::tree::mappings::Mappings<2, Ns> = to_quill::<2>(map, if order == 0 { None } else { Some(Rng::new(order)) }.as_mut()).expect("mapping model admissible for quill");
     let jar = SimJar::new(jar_bytes.to_vec(), io);
     // `remap` takes the jar by value: a second handle on the same medium (same bytes, plan and event log)
@@ -410,7 +457,7 @@ fn run_real(jar_bytes: &[u8], hier_bytes: Option<&[u8]>, io: &IoPlan, map: &MapS
             None => jar.get_super_classes_provider(),
         }
         .map_err(|e| ("provider", e))?;
-        let remapper = q.remapper_b_first_to_second(&prov).map_err(|e| ("remapper", e))?;
+        let remapper = Overlay { inner: q.remapper_b_first_to_second(&prov).map_err(|e| ("remapper", e))?, ov: overlay };
         let parsed = dukebox::remap::remap(jar2, remapper).map_err(|e| ("remap", e))?;
         let mem = parsed.to_mem().map_err(|e| ("to_mem", e))?;
         let entries = open_entries(&mem.data).map_err(|e| ("reopen", e))?;
@@ -485,7 +532,7 @@ fn entries_via_dukebox(jar: &impl Jar) -> anyhow::Result<Vec<String>> {
 }
 
 #[allow(clippy::too_many_arguments)]
-fn sink_phase(jar_bytes: &[u8], map: &MapSet, order: u64, sink: &IoPlan, route: u8, t0_entries: &[(String, EntryData)], obs: &mut Digest, st: &mut RunStats) -> Vec<Violation> {
+fn sink_phase(jar_bytes: &[u8], map: &MapSet, overlay: &[Ov], order: u64, sink: &IoPlan, route: u8, t0_entries: &[(String, EntryData)], obs: &mut Digest, st: &mut RunStats) -> Vec<Violation> {
     let mut out = vec![];
     let q: quill::tree::mappings::Mappings<2, Ns> = to_quill::<2>(map, if order == 0 { None } else { Some(Rng::new(order)) }.as_mut()).expect("mapping model admissible for quill");
     let src = SimJar::new(jar_bytes.to_vec(), &IoPlan::plain());
@@ -493,7 +540,7 @@ fn sink_phase(jar_bytes: &[u8], map: &MapSet, order: u64, sink: &IoPlan, route: 
     let _g = quiet::on();
     let parsed = no_panic(|| -> anyhow::Result<_> {
         let prov = src.get_super_classes_provider()?;
-        let remapper = q.remapper_b_first_to_second(&prov)?;
+        let remapper = Overlay { inner: q.remapper_b_first_to_second(&prov)?, ov: overlay };
         dukebox::remap::remap(src2, remapper)
     });
     drop(_g);
@@ -754,7 +801,38 @@ impl Engine for C07 {
             entries.extend(others);
             w.shuffle(&mut entries);
         }
-        let mut p = Plan { entries, deflate: w.chance(60), map: wl.map, map_order: if w.chance(30) { 0 } else { w.next() | 1 }, io: IoPlan::plain(), provider_healthy: false, sink: None, sink_route: 0, lazy: None };
+        let mut p = Plan { entries, deflate: w.chance(60), map: wl.map, map_order: if w.chance(30) { 0 } else { w.next() | 1 }, io: IoPlan::plain(), provider_healthy: false, sink: None, sink_route: 0, lazy: None, overlay: vec![] };
+        // ---- a caller-written remapper over the mapping-based one: new names for members (declared or referred to in
+        // the jar) of classes the mappings do not rename (missed seeded change C07-10)
+        {
+            let mut o = rng.split("overlay");
+            if o.chance(15) {
+                let mapped: BTreeSet<String> = p.map.classes.iter().filter(|(_, c)| matches!(c.names.first(), Some(Some(_)))).map(|(k, _)| k.clone()).collect();
+                let mut cands: Vec<(bool, JStr, JStr, JStr)> = vec![];
+                for e in &p.entries {
+                    if !e.dir && is_class(&e.name) {
+                        if let Ok(sem) = refclass::parse(&e.data) {
+                            cands.extend(crate::refremap::member_keys(&sem));
+                        }
+                    }
+                }
+                cands.retain(|(_, owner, name, desc)| {
+                    let ascii = |j: &JStr| j.as_bytes().iter().all(|b| (0x21..0x7f).contains(b));
+                    ascii(owner) && ascii(name) && ascii(desc) && owner.as_bytes().first() != Some(&b'[') && name.as_bytes().first() != Some(&b'<') && !mapped.contains(&jname(owner))
+                });
+                cands.sort();
+                cands.dedup();
+                let n = o.range(1, 3) as usize;
+                for i in 0..n.min(cands.len()) {
+                    let k = o.usize(cands.len());
+                    let (field, owner, name, desc) = cands[k].clone();
+                    if p.overlay.iter().any(|x| x.field == field && x.owner == jname(&owner) && x.name == jname(&name) && x.desc == jname(&desc)) {
+                        continue;
+                    }
+                    p.overlay.push(Ov { field, owner: jname(&owner), name: jname(&name), desc: jname(&desc), to: format!("{}_ov{i}", jname(&name)) });
+                }
+            }
+        }
         // ---- schedule and faults
         let mode = s.below(10);
         if mode >= 3 && (mode <= 5 || s.chance(50)) {
@@ -893,11 +971,11 @@ impl Engine for C07 {
 
         // ---------------- T0: plain medium against the reference
         st.tier("T0");
-        let r0 = reference(&entries, &entries, &p.map, false);
+        let r0 = reference(&entries, &entries, &p.map, &p.overlay, false);
         for (k, v) in &r0.changed {
             st.probe_n(k, *v);
         }
-        let t0 = run_real(&jar, None, &IoPlan::plain(), &p.map, p.map_order, st);
+        let t0 = run_real(&jar, None, &IoPlan::plain(), &p.map, &p.overlay, p.map_order, st);
         let t0_entries = match t0.out {
             RealOut::Panic(pm) => {
                 push_dedup(&mut out, &mut seen, Violation::new("T0", "panic", format!("remap:{}", panic_path(&pm)), pm));
@@ -927,7 +1005,7 @@ impl Engine for C07 {
             let tier = if legal { "T1" } else { "T2" };
             st.tier(if legal { "T1" } else { "T2" });
             let hier = if p.provider_healthy && !legal { Some(&jar[..]) } else { None };
-            let run = run_real(&jar, hier, &p.io, &p.map, p.map_order, st);
+            let run = run_real(&jar, hier, &p.io, &p.map, &p.overlay, p.map_order, st);
             if run.fuel_exhausted {
                 push_dedup(&mut out, &mut seen, Violation::new(tier, "runaway", "remap", "medium fuel exhausted"));
             }
@@ -967,7 +1045,7 @@ impl Engine for C07 {
                                 Ok(dl) => {
                                     st.probe("t2.ok_on_altered_bytes");
                                     let hier_entries = if p.provider_healthy { entries.clone() } else { dl.clone() };
-                                    let r2 = reference(&hier_entries, &dl, &p.map, true);
+                                    let r2 = reference(&hier_entries, &dl, &p.map, &p.overlay, true);
                                     if r2.unparseable > 0 {
                                         st.probe_n("lenient_accept", r2.unparseable as u64);
                                     }
@@ -986,7 +1064,7 @@ impl Engine for C07 {
             }
             if !legal {
                 // heal: the same operation on the healthy medium gives the plain answer again
-                let again = run_real(&jar, None, &IoPlan::plain(), &p.map, p.map_order, st);
+                let again = run_real(&jar, None, &IoPlan::plain(), &p.map, &p.overlay, p.map_order, st);
                 match again.out {
                     RealOut::Ok(v) if v == t0_entries => {}
                     RealOut::Ok(_) => push_dedup(&mut out, &mut seen, Violation::new("T2", "residue-after-heal", "entries", "the healthy retry differs from the first plain run")),
@@ -1012,7 +1090,7 @@ impl Engine for C07 {
             let _g = quiet::on();
             let res = no_panic(|| -> anyhow::Result<Vec<(String, EntryData)>> {
                 let prov = lj.get_super_classes_provider()?;
-                let remapper = q.remapper_b_first_to_second(&prov)?;
+                let remapper = Overlay { inner: q.remapper_b_first_to_second(&prov)?, ov: &p.overlay };
                 let parsed = dukebox::remap::remap(Shared(lj.clone()), remapper)?;
                 let mem = parsed.to_mem()?;
                 open_entries(&mem.data)
@@ -1056,7 +1134,7 @@ impl Engine for C07 {
         }
         // ---------------- sink phase: the remapped jar written out through a simulated sink / onto the simulated disk
         if let (Some(sink), true) = (&p.sink, p.io.faults.is_empty()) {
-            for v in sink_phase(&jar, &p.map, p.map_order, sink, p.sink_route, &t0_entries, &mut obs, st) {
+            for v in sink_phase(&jar, &p.map, &p.overlay, p.map_order, sink, p.sink_route, &t0_entries, &mut obs, st) {
                 push_dedup(&mut out, &mut seen, v);
             }
         }
@@ -1070,6 +1148,16 @@ impl Engine for C07 {
             let mut q = p.clone();
             q.io = io;
             c.push(q);
+        }
+        if !p.overlay.is_empty() {
+            let mut q = p.clone();
+            q.overlay.clear();
+            c.push(q);
+            for i in 0..p.overlay.len() {
+                let mut q = p.clone();
+                q.overlay.remove(i);
+                c.push(q);
+            }
         }
         if let Some(lp) = &p.lazy {
             let mut q = p.clone();
